@@ -361,7 +361,7 @@ def run_shard(ctx):
     rng = ctx.rng
     if ctx.shard == 4:
         import_order_cases(ctx)
-    kinds = list(K.KINDS)
+    kinds = list(K.KINDS) + list(K.UNUSUAL_RSA)
     if ctx.tier == "thorough":
         kinds += ["RSA:3072"] + (["RSA:4096"] if ctx.shard == 0 else [])
     work = []
